@@ -8,6 +8,9 @@ from fractions import Fraction as F
 import bisect
 
 
+TINY = F(1, 10 ** 300)      # differences below this are lost to underflow in binary64: rounding-ambiguous
+
+
 def fr(x):
     return F(float(x))
 
@@ -200,7 +203,7 @@ def coincidences_ref(sp1, sp2, ts, te, max_tau=0, MRTS=0, want_ties=False):
             if want_ties:
                 if d == tau:
                     ties += 1
-                elif tau > 0 and abs(d - tau) <= tau / (1 << 48):
+                elif tau > 0 and (abs(d - tau) <= tau / (1 << 48) or abs(d - tau) <= TINY):
                     near.append((i, j))
     if want_ties:
         return c1, c2, pairs, ties, near
